@@ -619,15 +619,23 @@ fn body17(sched: &Arc<Sched>, sc: &Sc17, scratch: &PathBuf) -> (Execution, Verdi
 
 struct Harness<'a> {
     name: String,
+    /// The bound that is always completed (the quick tier's).
+    sure: usize,
+    /// The bound of this tier; beyond `sure` it runs under an execution cap.
     bound: usize,
     body: Box<dyn Fn(&Arc<Sched>) -> (Execution, Verdict) + Sync + 'a>,
 }
+
+/// Executions per scenario at a bound beyond the one that is always completed.
+const DEEP_CAP: u64 = 150_000;
 
 fn drive(ctx: &Ctx, rep: &mut Report, prop: &str, harnesses: Vec<Harness>) {
     let mut samples = Vec::new();
     for (idx, h) in harnesses.iter().enumerate() {
         if !ctx.mine(idx as u64) { continue }
-        let cfg = SchedConfig { bound: h.bound, max_steps: 5000, max_execs: 600_000, workers: 4 };
+        let passes: Vec<(usize, u64)> = if h.bound > h.sure { vec![(h.sure, 3_000_000), (h.bound, DEEP_CAP)] } else { vec![(h.bound, 3_000_000)] };
+        for (bound, max_execs) in passes {
+        let cfg = SchedConfig { bound, max_steps: 5000, max_execs, workers: 4 };
         let stats = sched::explore(&cfg, |s| (h.body)(s));
         rep.transitions += stats.steps;
         rep.traces += stats.executions;
@@ -635,10 +643,13 @@ fn drive(ctx: &Ctx, rep: &mut Report, prop: &str, harnesses: Vec<Harness>) {
         rep.nontrivial += stats.by_preemptions.iter().filter(|(k, _)| **k > 0).map(|(_, v)| *v).sum::<u64>();
         for (k, v) in &stats.outcomes { *rep.outcomes.entry(format!("{}:{k}", h.name)).or_insert(0) += v; }
         rep.states += stats.outcomes.len() as u64;
-        rep.extra.insert(format!("executions_{}", h.name), json!(stats.executions));
-        rep.extra.insert(format!("bound_{}", h.name), json!(h.bound));
+        rep.extra.insert(format!("executions_bound{bound}_{}", h.name), json!(stats.executions));
         rep.extra.insert(format!("max_points_{}", h.name), json!(stats.max_points));
-        if let Some(c) = stats.capped { rep.capped = Some(c) }
+        if stats.capped.is_some() {
+            let list = rep.extra.entry("capped_scenarios".to_string()).or_insert(json!([]));
+            list.as_array_mut().unwrap().push(json!(format!("{} at bound {bound}", h.name)));
+            rep.capped = Some(format!("execution cap {max_execs} per scenario reached at the deeper bound (see capped_scenarios); bound {} completed for every scenario", h.sure));
+        }
         if let Some(m) = stats.machinery {
             eprintln!("machinery error: {m}");
             std::process::exit(2)
@@ -653,7 +664,8 @@ fn drive(ctx: &Ctx, rep: &mut Report, prop: &str, harnesses: Vec<Harness>) {
             }
             rep.violation(f.fingerprint.clone(), format!(
                 "scenario {}, {} preemptions: {}; schedule {:?}", h.name, f.preemptions, f.message, f.labels
-            ), sched::found_json(&h.name, h.bound, f));
+            ), sched::found_json(&h.name, bound, f));
+        }
         }
     }
     for s in samples { rep.sample(s) }
@@ -678,10 +690,10 @@ pub fn run_c15(ctx: &Ctx) -> Report {
     let scratch = ctx.scratch.clone();
     let hs = scenarios15(ctx.tier.thorough()).into_iter().map(|sc| {
         let scratch = scratch.clone();
-        Harness { name: sc.name.to_string(), bound, body: Box::new(move |s| body15(s, &sc, &scratch)) }
+        Harness { name: sc.name.to_string(), sure: 3, bound, body: Box::new(move |s| body15(s, &sc, &scratch)) }
     }).collect();
     drive(ctx, &mut rep, "C15", hs);
-    rep.bound = format!("preemption bound {bound}; all schedules within the bound executed");
+    rep.bound = if bound > 3 { format!("preemption bound 3: all schedules executed; preemption bound {bound}: all schedules of a scenario unless it has more than {DEEP_CAP}, then the first {DEEP_CAP} (such scenarios are listed under capped_scenarios)") } else { format!("preemption bound {bound}; all schedules within the bound executed") };
     rep.assumptions.push("data sets are route origins installed as SLURM assertions over a TAL-less offline engine (the update path is the real one); scheduling points at every acquire of the history lock and the hook points; the engine's own worker threads run uncontrolled".into());
     rep
 }
@@ -702,10 +714,10 @@ pub fn run_c16(ctx: &Ctx) -> Report {
     let scratch = ctx.scratch.clone();
     let hs = scenarios16(ctx.tier.thorough()).into_iter().map(|sc| {
         let scratch = scratch.clone();
-        Harness { name: sc.name.to_string(), bound, body: Box::new(move |s| body16(s, &sc, &scratch)) }
+        Harness { name: sc.name.to_string(), sure: 4, bound, body: Box::new(move |s| body16(s, &sc, &scratch)) }
     }).collect();
     drive(ctx, &mut rep, "C16", hs);
-    rep.bound = format!("preemption bound {bound}; all schedules within the bound executed");
+    rep.bound = if bound > 4 { format!("preemption bound 4: all schedules executed; preemption bound {bound}: all schedules of a scenario unless it has more than {DEEP_CAP}, then the first {DEEP_CAP} (such scenarios are listed under capped_scenarios)") } else { format!("preemption bound {bound}; all schedules within the bound executed") };
     rep.assumptions.push("only validators the server itself issued are replayed, so real clocks are harmless; scheduling points as for C15".into());
     rep
 }
@@ -728,10 +740,10 @@ pub fn run_c17(ctx: &Ctx) -> Report {
     let scratch = ctx.scratch.clone();
     let hs = scenarios17(ctx.tier.thorough()).into_iter().map(|sc| {
         let scratch = scratch.clone();
-        Harness { name: sc.name.to_string(), bound, body: Box::new(move |s| body17(s, &sc, &scratch)) }
+        Harness { name: sc.name.to_string(), sure: 4, bound, body: Box::new(move |s| body17(s, &sc, &scratch)) }
     }).collect();
     drive(ctx, &mut rep, "C17", hs);
-    rep.bound = format!("preemption bound {bound}; all schedules within the bound executed");
+    rep.bound = if bound > 4 { format!("preemption bound 4: all schedules executed; preemption bound {bound}: all schedules of a scenario unless it has more than {DEEP_CAP}, then the first {DEEP_CAP} (such scenarios are listed under capped_scenarios)") } else { format!("preemption bound {bound}; all schedules within the bound executed") };
     rep.assumptions.push("tokio's broadcast channel is used as is (its internal locking is not a scheduling point; the channel operations are atomic steps of the running thread)".into());
     rep
 }
